@@ -44,6 +44,12 @@ def S(t, al=None, depth=0):
         if isinstance(b, dict) and b.get("k") == "mem" and b.get("n") == "":
             # member of an anonymous union/struct: the anonymous level is transparent
             return S(b["b"], al, d) + ("->" if b.get("arrow") else ".") + t["n"]
+        if not t.get("arrow") and isinstance(b, dict):
+            # (*p).m is p->m
+            if b.get("k") == "un" and b.get("op") == "*":
+                return S(b["e"], al, d) + "->" + t["n"]
+            if b.get("k") == "call" and b.get("op") == "*" and b.get("recv") is not None and not b.get("a"):
+                return S(b["recv"], al, d) + "->" + t["n"]
         return S(t["b"], al, d) + ("->" if t.get("arrow") else ".") + t["n"]
     if k == "call":
         name = t.get("name", t.get("fn", "?"))
@@ -122,6 +128,30 @@ def S(t, al=None, depth=0):
     if k == "zero":
         return "0"
     return t.get("text", "?" + str(k))
+
+
+def canon(t):
+    """copy of an expression tree with the spelling of comparisons normalised: a > b -> b < a, a >= b -> b <= a, and the
+    operands of == / != put in a fixed order (commutative arithmetic is left to the polynomial layer)"""
+    if isinstance(t, list):
+        return [canon(x) for x in t]
+    if not isinstance(t, dict):
+        return t
+    r = {k: canon(v) for k, v in t.items()}
+    if r.get("k") == "bin":
+        op = r.get("op")
+        if op in (">", ">="):
+            r["l"], r["r"] = r["r"], r["l"]
+            r["op"] = "<" if op == ">" else "<="
+        elif op in ("==", "!="):
+            if S(r["l"]) > S(r["r"]):
+                r["l"], r["r"] = r["r"], r["l"]
+    return r
+
+
+def SN(t, al=None):
+    """canonical string with comparison spelling normalised (see canon)"""
+    return S(canon(t), al)
 
 
 def lit(cond):
@@ -510,20 +540,39 @@ class Fn:
 
     def guard_edges(self, pred, want=True):
         """set of (bid, succ index) edges on which a literal satisfying pred
-        is known to have truth value `want`"""
+        is known to have truth value `want`. A branch on a conjunction that is true makes every conjunct true, one on a
+        disjunction that is false makes every disjunct false, and a negation flips (so `!(a && b)` and `!a || !b` give the
+        same edges)."""
+        def implied(t, val):
+            if isinstance(t, dict):
+                if t.get("k") == "cast":
+                    return implied(t.get("e"), val)
+                if t.get("k") == "un" and t.get("op") == "!":
+                    return implied(t.get("e"), not val)
+                if t.get("k") == "bin" and t.get("op") == "&&" and val:
+                    return implied(t["l"], True) + implied(t["r"], True)
+                if t.get("k") == "bin" and t.get("op") == "||" and not val:
+                    return implied(t["l"], False) + implied(t["r"], False)
+            return [(t, val)]
         out = set()
         for bid, b in self.blocks.items():
             br = self.branch(bid)
             if br is None:
                 continue
             t, pol = br
-            if not pred(t):
-                continue
             # succ[0] taken when cond true => literal == pol
-            if pol == want:
-                out.add((bid, 0))
-            else:
-                out.add((bid, 1))
+            for i, val in ((0, pol), (1, not pol)):
+                for lt, v in implied(t, val):
+                    if isinstance(lt, dict):
+                        l2, p2 = lit(lt)
+                        if p2 is False:
+                            v2 = not v
+                        else:
+                            v2 = v
+                    else:
+                        l2, v2 = lt, v
+                    if v2 == want and l2 is not None and pred(l2):
+                        out.add((bid, i))
         return out
 
     def guarded_positions(self, is_target, pred, want=True, kill=None):
